@@ -427,12 +427,83 @@ def run_live(shard, acc):
     acc.case(dict(kind="live"), True, viols)
 
 
+# ---- concurrent callers over a static table: every process's facts must stay its own ---------------------------------
+
+def run_threads_case(case, acc):
+    """Four free-running threads (1 us switch interval) query the stat/status-derived facts of *different* simulated
+    processes at once; each answer must be what a lone caller gets for that process."""
+    import sys
+    import threading
+    env = setup()
+    ps, vkernel, ProcTable = env["ps"], env["vkernel"], env["ProcTable"]
+    from vlib.proctable import Thread
+    rng = harness.rng_for(case["seed"], "c06t", case["i"])
+    t = ProcTable(btime=1_700_000_000)
+    t.spawn(1, 1, ppid=0, comm=b"init")
+    pids = [50 + 7 * k for k in range(6)]
+    for k, pid in enumerate(pids):
+        p = t.spawn(pid, 1000 + 97 * k, ppid=1 if k == 0 else pids[k - 1], comm=gen_comm(rng) or b"p%d" % k)
+        p.utime, p.stime, p.cutime, p.cstime = 11 * k + 1, 13 * k + 2, k, 2 * k
+        p.uids, p.gids = (k, k + 1, k + 2, k + 3), (10 + k, 11 + k, 12 + k, 13 + k)
+        p.vctx, p.nvctx, p.processor = 100 + k, 200 + k, k % 4
+        p.state = "SRDTSZ"[k] if k < 5 else "S"
+        p.threads = [Thread(pid, p.comm, p.utime, p.stime, p.state), Thread(pid + 1, b"w%d" % k, k, k + 1, "S")]
+    vk = vkernel.VK()
+    vk.table = t
+    vk.mount("/vproc", t)
+    getters = ("name", "ppid", "status", "cpu_times", "uids", "gids", "num_threads", "num_ctx_switches", "cpu_num", "threads", "create_time")
+
+    def facts(pr, g):
+        try:
+            v = getattr(pr, g)()
+        except Exception as e:  # noqa: BLE001
+            return ("exc", type(e).__name__)
+        return ("ok", repr(v))
+    errors, wrong = [], []
+    old = sys.getswitchinterval()
+    with vk:
+        procs = {pid: ps.Process(pid) for pid in pids}
+        base = {(pid, g): facts(procs[pid], g) for pid in pids for g in getters}
+        barrier = threading.Barrier(4)
+
+        def worker(i):
+            r = harness.rng_for(case["seed"], "c06tw", case["i"], i)
+            try:
+                barrier.wait()
+                for n in range(case["calls"]):
+                    pid = pids[(i + n) % len(pids)] if n % 3 else r.choice(pids)
+                    g = r.choice(getters)
+                    pr = procs[pid] if n % 2 else ps.Process(pid)
+                    got = facts(pr, g)
+                    acc.count("concurrent_getter_calls_compared")
+                    if got != base[(pid, g)]:
+                        wrong.append((pid, g, got, base[(pid, g)]))
+            except BaseException as e:  # noqa: BLE001
+                errors.append((i, e))
+        sys.setswitchinterval(1e-6)
+        try:
+            ths = [threading.Thread(target=worker, args=(i,), daemon=True) for i in range(4)]
+            for th in ths:
+                th.start()
+            for th in ths:
+                th.join(120)
+        finally:
+            sys.setswitchinterval(old)
+    viols = [(f"concurrent_exception:{type(e).__name__}", f"thread {i}: {e!r}") for i, e in errors]
+    for pid, g, got, want in wrong[:3]:
+        viols.append((f"concurrent_result_differs_from_sequential:{g}", f"pid {pid}: {g}() -> {got} while other threads query other processes; "
+                                                                        f"alone it answers {want} ({len(wrong)} such answers)"))
+    acc.case(dict(kind="threads", seed=case["seed"], i=case["i"], calls=case["calls"]), True, viols)
+
+
 def plan(tier, seed):
     n = 24000 if tier == "quick" else 1_200_000
     shards = [dict(kind="exh")]
     for s, c in harness.split_range(n, 16 if tier == "quick" else 64):
         shards.append(dict(kind="gen", seed=seed, start=s, count=c))
     shards.append(dict(kind="live"))
+    for part in range(2 if tier == "quick" else 8):
+        shards.append(dict(kind="threads", seed=seed, part=part, count=10 if tier == "quick" else 150))
     return shards
 
 
@@ -449,9 +520,14 @@ def run_shard(shard):
             run_case(gen_case(rng, env["ttys"]), acc)
     elif shard["kind"] == "live":
         run_live(shard, acc)
+    elif shard["kind"] == "threads":
+        for i in range(shard["count"]):
+            run_threads_case(dict(seed=shard["seed"], i=shard["part"] * 1000 + i, calls=150), acc)
     elif shard["kind"] == "cases":
         for case in shard["cases"]:
-            if case.get("kind") == "live":
+            if case.get("kind") == "threads":
+                run_threads_case(dict(seed=case["seed"], i=case["i"], calls=case.get("calls", 150)), acc)
+            elif case.get("kind") == "live":
                 run_live({}, acc)
             else:
                 run_case(case, acc)
